@@ -39,7 +39,10 @@ fn read_message(peer: &mut std::os::unix::net::UnixStream) -> Vec<u8> {
 }
 
 fn hist(ops: &[&str]) -> String {
-    let (mut conn, mut peer) = connect_pair(false);
+    let (mut conn, mut peer) = match std::panic::catch_unwind(|| connect_pair(false)) {
+        Ok(p) => p,
+        Err(_) => return "SETUPFAIL".to_string(),
+    };
     peer.set_read_timeout(Some(std::time::Duration::from_secs(20))).unwrap();
     let mut out = Vec::new();
     for o in ops {
